@@ -100,6 +100,42 @@ func main() {
 		fmt.Println("MISMATCH - no workload")
 		os.Exit(3)
 	}
+	// table-altering streams and the ordinary streams of the same decoder (suites/contract/special.go):
+	// decode-only jobs. All ordinary references first, then the altering ones, so that a decoder
+	// that lets an altering stream change shared state is caught by the ordinary jobs.
+	type sjob struct {
+		ts    ct.TS
+		c     codec.Codec
+		g     ct.Geo
+		name  string
+		data  []byte
+		class string
+		want  [][]byte
+	}
+	var specials []*sjob
+	if *only == "" {
+		groups := ct.SpecialGroups(rng)
+		for pass := 0; pass < 2; pass++ {
+			for _, grp := range groups {
+				c, err := ct.Registry(grp.TS)
+				if err != nil {
+					continue
+				}
+				list := grp.Ordinary
+				if pass == 1 {
+					list = grp.Altering
+				}
+				for _, sp := range list {
+					cl, out := ct.DecodeSolo(c, grp.G, sp.Data)
+					kind := "ordinary:"
+					if pass == 1 {
+						kind = "altering:"
+					}
+					specials = append(specials, &sjob{grp.TS, c, grp.G, kind + sp.Name, sp.Data, cl, out})
+				}
+			}
+		}
+	}
 
 	var procs []int
 	for _, s := range strings.Split(*procsFlag, ",") {
@@ -138,7 +174,7 @@ func main() {
 				offs := make([]int, *nG)
 				spin := make([]int, *nG)
 				for i := range offs {
-					offs[i] = rng.Intn(len(items))
+					offs[i] = rng.Intn(len(items) + len(specials))
 					spin[i] = rng.Intn(2000)
 				}
 				var wg sync.WaitGroup
@@ -157,6 +193,15 @@ func main() {
 							}
 						}
 						_ = x
+						if k := (offs[gi] + gi) % (len(items) + len(specials)/2 + 1); k >= len(items) && len(specials) > 0 {
+							sj := specials[(offs[gi]*7+gi*13+spin[gi])%len(specials)]
+							atomic.AddInt64(&calls, 1)
+							cl, out := ct.DecodeSolo(sj.c, sj.g, sj.data)
+							if cl != sj.class || !ct.EqualFrames(out, sj.want) {
+								report("MISMATCH %s decode-special mode=%s procs=%d : stream %q decodes differently (%s) than alone (%s) (%s)", sj.ts.Short, mode, p, sj.name, cl, sj.class, sj.g)
+							}
+							return
+						}
 						it := items[(offs[gi]+gi)%len(items)]
 						if it.encError[mode] {
 							return
